@@ -581,13 +581,13 @@ func (su *c16Setup) describe() string {
 func c16Scenario(c *Ctx) {
 	net := NewNet(c, defaultParams(c))
 	su := c16GenSetup(c, net)
+	e := c16GenEntry(c, su)
 	deep := false
 	for _, k := range su.Contracts {
-		if strings.HasPrefix(k.Desc, "recurse-") {
-			deep = true
+		if strings.HasPrefix(k.Desc, "recurse-") && k.Addr == e.Target {
+			deep = true // the entry goes straight into a recursion template (which only calls itself)
 		}
 	}
-	e := c16GenEntry(c, su)
 	if deep && c.Draw("gen", 2) == 1 && e.Kind != "create" {
 		// enough gas for the 63/64 rule to reach the depth limit (only for recursion templates: they do not expand memory)
 		e.Gas = 100000000000000
